@@ -9,6 +9,10 @@
 #define VERIF_GAIN 1
 #include <math.h>
 static double g_exp_arg, g_exp_ret; static int g_exp_calls;
+#if defined(VERIF_CH) && !defined(VERIF_TOCF)
+#define VERIF_TOCF VERIF_FRAME                       /* shape parameters of the (unused here) decode_frame harness in the included TU */
+#define VERIF_BUF (VERIF_FRAME * (VERIF_FS / 400))
+#endif
 #include "C01_decode_frame.c"
 double exp(double x) { g_exp_calls++; g_exp_arg = x; return g_exp_ret; }
 void h_decode_gain(void)
@@ -55,5 +59,32 @@ void h_decode_gain(void)
          __CPROVER_assert(g_exp_arg == want, "the factor is exp(ln2 * 6.48814081e-4 * g) = 10^(g/5120)");
          __CPROVER_assert(__CPROVER_equal(out, (float)(g_pre * (float)g_exp_ret)), "every decoded sample is multiplied by the factor, and nothing else");
       }
+   }
+}
+
+/* mode transition (previous frame MDCT-only, this one SILK-only, no redundancy frame): opus_decode_frame calls itself to get 5 ms of
+   concealment audio and cross-fades it in.  The gain must still be applied to the output exactly once ("and nothing else"):
+   the factor is computed once per decoded frame, i.e. the concealment audio is not scaled before it is mixed in. */
+void h_decode_gain_transition(void)
+{
+   dec_block *blk = malloc(sizeof(dec_block)); OpusDecoder *st; int len = nondet_int(), frame_size, ret, i, gain;
+   unsigned char *data; opus_res *pcm; const int F2_5 = VERIF_FS / 400;
+   __CPROVER_assume(blk != NULL); st = &blk->d;
+   __CPROVER_assume(DEC_OK(st) && st->Fs == VERIF_FS && st->decode_gain >= -32768 && st->decode_gain <= 32767);
+   __CPROVER_assume(st->celt_dec_offset >= (int)sizeof(OpusDecoder) && st->celt_dec_offset < (int)sizeof(OpusDecoder) + 64);
+   __CPROVER_assume(st->silk_dec_offset >= (int)sizeof(OpusDecoder) && st->silk_dec_offset < (int)sizeof(OpusDecoder) + 64);
+   __CPROVER_assume(st->mode == MODE_SILK_ONLY && st->prev_mode == MODE_CELT_ONLY && st->prev_redundancy == 0 && st->bandwidth == OPUS_BANDWIDTH_NARROWBAND);
+   __CPROVER_assume(st->channels == VERIF_CH && st->frame_size == 4 * F2_5);
+   frame_size = st->frame_size; gain = st->decode_gain;
+   { static opus_res pcm_store[4 * (VERIF_FS / 400) * VERIF_CH]; pcm = pcm_store; }
+   __CPROVER_assume(2 <= len && len <= VERIF_MAXLEN);
+   data = malloc(len); __CPROVER_assume(data != NULL); for (i = 0; i < VERIF_MAXLEN; i++) if (i < len) data[i] = nondet_uchar();
+   g_exp_ret = nondet_double(); __CPROVER_assume(g_exp_ret > 0 && g_exp_ret < 1e6);
+   g_exp_calls = 0; g_silk_calls = 0;
+   ret = opus_decode_frame(st, data, len, pcm, frame_size, 0);
+   if (ret > 0) {
+      __CPROVER_assert(ret == frame_size, "the transition frame has the duration its TOC announced (with and without gain)");
+      if (gain == 0) { CANARY("transition, gain 0"); __CPROVER_assert(g_exp_calls == 0, "decoder gain 0: no factor is computed"); }
+      else { CANARY("transition, gain set"); __CPROVER_assert(g_exp_calls == 1, "mode transition with a decoder gain: the factor is computed and applied once per decoded frame (the cross-faded concealment audio is not scaled on its own)"); }
    }
 }
